@@ -13,6 +13,7 @@
 import Caches.Lemmas.RawLru
 import Caches.Lemmas.Chain
 import Caches.Lemmas.PtrRun
+import Caches.Lemmas.AbortG
 namespace C03
 open M M.RawLru
 variable {κ ν : Type} [DecidableEq κ]
@@ -135,4 +136,31 @@ example : Rep ({ cap := 3, heap := fun x => match x with | 0 => ⟨0, 5⟩ | 5 =
       · injection h with h; subst h; simp_all
       · cases h
   · rintro ⟨h | h, hk⟩ <;> subst h <;> simp at hk <;> subst hk <;> simp
+
+/-! ### composite caches: nodes moved between lists
+
+  `Model/AbortG.lean` is a heap of nodes shared by the lists of SegmentedCache / TwoQueueCache / AdaptiveCache; the
+  crate-internal node primitives (`put_nonnull`, `put_or_evict_nonnull`, `remove_and_return_ent`, `remove_lru_in`,
+  attach/detach, `Box::from_raw`) raise the ghost flag `fault` when used outside their contract: linking a node that
+  is already linked, unboxing a node that is still linked or already freed, reading the sentinel as an entry.
+  The theorem proved for C18 (every operation from every invariant heap, aborted at any user call) contains the
+  panic-free case: the flag is never raised, the node ids stay distinct (no node in two lists) and every index entry
+  names a node linked in its own list. -/
+section Composite
+open M.AG
+variable [DecidableEq κ]
+
+/-- every history of composite-cache operations (panic-free or not) from a freshly built cache -/
+theorem composite_never_misuses_nodes (cap : Nat → Nat) (hc : ∀ c, 0 < cap c) (ops : List (COp κ ν × Nat)) :
+    let g := ops.foldl (fun g o => o.1.runAt o.2 g) (emptyG cap)
+    g.fault = false ∧ (g.pool.map (·.id)).Nodup ∧
+      ∀ c k i, (k, i) ∈ g.idx c → ∃ e ∈ chain g c, e.id = i ∧ e.key = k := by
+  intro g
+  have hI : AG.Inv g := history_inv ops _ (emptyG_inv cap hc)
+  refine ⟨hI.nofault, hI.ids_nd, ?_⟩
+  intro c k i hm
+  obtain ⟨e, he, ht, hid, hk⟩ := hI.idx_in c k i hm
+  exact ⟨e, List.mem_filter.2 ⟨he, by simp [ht]⟩, hid, hk⟩
+end Composite
+
 end C03
